@@ -279,8 +279,56 @@ func runC12(c *Ctx) {
 			}
 		})
 	}
+	// A second, independent syncer of the same configuration over its own
+	// device, used by its own task while the first one is written, stopped and
+	// written again: what one syncer accepted must never surface in, or be
+	// displaced by, the other (nothing may be shared between two syncers).
+	var sinkB *zsim.SimSink
+	var bwsB *zapcore.BufferedWriteSyncer
+	acceptedB := 0
+	if !crash && g.Chance(3) {
+		sinkB = zsim.NewSimSink(r, "disk-b", frag, uint64(g.Draw(1<<16))+1)
+		r.Label(unsafe.Pointer(sinkB), "disk-b")
+		clkB := zsim.NewSimClock(r, drawEpoch(g)) // stands still: no flush tick for the companion
+		bwsB = &zapcore.BufferedWriteSyncer{WS: sinkB, Size: w.size, FlushInterval: time.Hour}
+		bwsB.Clock = clkB.For(unsafe.Pointer(bwsB), unsafe.Sizeof(*bwsB))
+		nB := 1 + g.Draw(5)
+		lens := make([]int, nB)
+		for i := range lens {
+			lens[i] = g.Draw(2 * eff) // 0: a Sync
+		}
+		c.Describe("companion syncer over disk-b: ops %v (0 = Sync)", lens)
+		r.Go("tb", func() {
+			for _, n := range lens {
+				if n == 0 {
+					if err := bwsB.Sync(); err != nil {
+						c.Fail("C12-D: Sync returned an error on a healthy sink", "companion syncer: %v", err)
+						return
+					}
+				} else {
+					p := bytes.Repeat([]byte{0x7B}, n)
+					if k, err := bwsB.Write(p); k != n || err != nil {
+						c.Fail("C12: Write on a healthy sink did not accept the whole payload", "companion syncer: Write(len %d) returned (%d, %v)", n, k, err)
+						return
+					}
+					acceptedB += n
+				}
+				zsim.Yield(zsim.KOp, nil)
+			}
+		})
+	}
 	c.Nontrivial = nTasks >= 2
 	c.Sim()
+	if bwsB != nil && !r.Failed() {
+		if err := bwsB.Stop(); err != nil {
+			c.Fail("C12-E: Stop returned an error on a healthy sink", "companion syncer: %v", err)
+			return
+		}
+		if len(sinkB.Data) != acceptedB || bytes.Count(sinkB.Data, []byte{0x7B}) != acceptedB {
+			c.Fail("C12: the sink of one syncer does not hold exactly what that syncer accepted when another syncer of the same size is in use", "companion accepted %d bytes of 0x7b, its sink holds %d bytes: %q", acceptedB, len(sinkB.Data), clip(sinkB.Data))
+			return
+		}
+	}
 	if ticks > 0 || w.killed {
 		c.Nontrivial = true
 	}
